@@ -5,7 +5,10 @@ B    := build
 CC   := clang
 CXX  := clang++
 
-LIB_SRCS := $(shell find $(REPO)/src -name '*.c' | sort)
+# which sources form the libraries, and the preprocessor definitions they and the examples are built with, come from the
+# repository's own CMake description (tools/repo_config.py: configure-only probe, cached; falls back to src/**/*.c)
+_repo_cfg := $(shell mkdir -p $(B) && python3 tools/repo_config.py $(REPO) $(B) 2>>$(B)/repo_config.log)
+include $(B)/repo_config.mk
 REPO_HDRS := $(shell find $(REPO)/include $(REPO)/examples -name '*.h' | sort)
 EX := $(REPO)/examples
 
@@ -23,8 +26,8 @@ NET_WRAPFLAGS := $(foreach w,$(NET_WRAPS),-Wl,--wrap=$(w))
 
 # example program -> main symbol
 define EXRULE
-$(NETB)/ex/$(1).o: $(EX)/$(2) $(REPO_HDRS) Makefile | dirs
-	$(CC) $(NET_REPO_CFLAGS) -Dmain=$(3) -c $$< -o $$@
+$(NETB)/ex/$(1).o: $(EX)/$(2) $(REPO_HDRS) Makefile $(B)/repo_config.mk | dirs
+	$(CC) $(NET_REPO_CFLAGS) $(REPO_EX_DEFS) -Dmain=$(3) -c $$< -o $$@
 NET_EX_OBJS += $(NETB)/ex/$(1).o
 endef
 $(eval $(call EXRULE,acf-can-talker,acf-can/acf-can-talker.c,acf_can_talker_main))
@@ -43,9 +46,9 @@ $(eval $(call EXRULE,crf-listener,crf/crf-listener.c,crf_listener_main))
 $(eval $(call EXRULE,crf-listener-b,crf/crf-listener.c,crf_listener_b_main))
 $(eval $(call EXRULE,common,common/common.c,unused_main_2))
 
-$(NETB)/lib/%.o: $(REPO)/src/%.c $(REPO_HDRS) Makefile | dirs
+$(NETB)/lib/%.o: $(REPO)/src/%.c $(REPO_HDRS) Makefile $(B)/repo_config.mk | dirs
 	@mkdir -p $(dir $@)
-	$(CC) $(NET_REPO_CFLAGS) -c $< -o $@
+	$(CC) $(NET_REPO_CFLAGS) $(REPO_LIB_DEFS) -c $< -o $@
 
 NET_SIM_SRCS := sim/task.cc sim/driver.cc sim/symtab.cc sim/cov.cc engines/net/world.cc engines/net/exec.cc engines/net/gen.cc engines/net/main.cc
 NET_SIM_OBJS := $(patsubst %.cc,$(NETB)/sim/%.o,$(NET_SIM_SRCS))
@@ -64,7 +67,7 @@ $(NETB)/marker_end.o: sim/marker_end.c | dirs
 NET_REPO_CFLAGS_O0 := $(REPO_CFLAGS_COMMON) -O0 $(NET_SAN) $(COV) -I$(EX)
 EX_SRCS := $(shell find $(EX) -name '*.c' | sort)
 $(NETB)/examples_O0.o: $(EX_SRCS) $(REPO_HDRS) Makefile tools/build_o0.sh | dirs
-	tools/build_o0.sh $(NETB)/exO0 $@ "$(CC)" "$(NET_REPO_CFLAGS_O0)" $(EX)
+	tools/build_o0.sh $(NETB)/exO0 $@ "$(CC)" "$(NET_REPO_CFLAGS_O0) $(REPO_EX_DEFS)" $(EX)
 
 $(B)/net_sim: $(NETB)/marker_begin.o $(NET_LIB_OBJS) $(NET_EX_OBJS) $(NETB)/examples_O0.o $(NETB)/marker_end.o $(NET_SIM_OBJS)
 	$(CXX) -no-pie -fsanitize=address,bounds,integer-divide-by-zero $(NET_WRAPFLAGS) -o $@ $(NETB)/marker_begin.o $(NET_LIB_OBJS) $(NET_EX_OBJS) $(NETB)/examples_O0.o $(NETB)/marker_end.o $(NET_SIM_OBJS) -lm
@@ -89,31 +92,33 @@ $(RECB)/bind_%.o: $(GEN)/bind_%.c bindings/bind.h $(REPO_HDRS) | dirs
 	$(CC) -std=gnu99 -O2 -g -fsanitize=address -I$(REPO)/include -Ibindings -w -c $< -o $@
 REC_SIM_SRCS := sim/task.cc sim/driver.cc sim/symtab.cc sim/cov.cc engines/rec/rec.cc
 REC_SIM_OBJS := $(patsubst %.cc,$(RECB)/sim/%.o,$(REC_SIM_SRCS))
-$(RECB)/sim/%.o: %.cc $(wildcard sim/*.h spec/*.h bindings/*.h) Makefile | dirs
+$(RECB)/sim/%.o: %.cc $(wildcard sim/*.h spec/*.h bindings/*.h engines/reent/drivers.h) Makefile | dirs
 	@mkdir -p $(dir $@)
 	$(CXX) $(SIM_CXXFLAGS) -fsanitize=address -c $< -o $@
-$(B)/rec_sim: $(NETB)/marker_begin.o $(NET_LIB_OBJS) $(NETB)/marker_end.o $(REC_BIND_OBJS) $(REC_SIM_OBJS)
-	$(CXX) -no-pie -fsanitize=address,bounds,integer-divide-by-zero -o $@ $(NETB)/marker_begin.o $(NET_LIB_OBJS) $(NETB)/marker_end.o $(REC_BIND_OBJS) $(REC_SIM_OBJS) -lm
+REC_DRV_OBJS := $(B)/reent/drv_can.o $(B)/reent/drv_canbrief.o
+$(B)/rec_sim: $(NETB)/marker_begin.o $(NET_LIB_OBJS) $(NETB)/marker_end.o $(REC_BIND_OBJS) $(REC_DRV_OBJS) $(REC_SIM_OBJS)
+	$(CXX) -no-pie -fsanitize=address,bounds,integer-divide-by-zero -o $@ $(NETB)/marker_begin.o $(NET_LIB_OBJS) $(NETB)/marker_end.o $(REC_BIND_OBJS) $(REC_DRV_OBJS) $(REC_SIM_OBJS) -lm
 rec: $(B)/rec_sim
 
 # ---------------------------------------------------------------- reent engine (C16): -O0, trace-loads/stores, no ASan
 REENTB := $(B)/reent
 REENT_REPO_CFLAGS := $(REPO_CFLAGS_COMMON) -O0 -fno-builtin -fsanitize-coverage=trace-pc-guard,pc-table,trace-loads,trace-stores
 REENT_LIB_OBJS := $(patsubst $(REPO)/src/%.c,$(REENTB)/lib/%.o,$(LIB_SRCS))
-$(REENTB)/lib/%.o: $(REPO)/src/%.c $(REPO_HDRS) Makefile | dirs
+$(REENTB)/lib/%.o: $(REPO)/src/%.c $(REPO_HDRS) Makefile $(B)/repo_config.mk | dirs
 	@mkdir -p $(dir $@)
-	$(CC) $(REENT_REPO_CFLAGS) -c $< -o $@
+	$(CC) $(REENT_REPO_CFLAGS) $(REPO_LIB_DEFS) -c $< -o $@
 REENT_BIND_OBJS := $(patsubst $(GEN)/%.c,$(REENTB)/%.o,$(BIND_SRCS))
 $(REENTB)/bind_%.o: $(GEN)/bind_%.c bindings/bind.h $(REPO_HDRS) | dirs
 	@mkdir -p $(REENTB)
 	$(CC) -std=gnu99 -O1 -g -I$(REPO)/include -Ibindings -w -c $< -o $@
+REENT_WRAPFLAGS := $(foreach w,strtok rand srand localtime gmtime ctime asctime strerror setlocale malloc calloc realloc free $(shell cat engines/reent/libc_denylist.txt),-Wl,--wrap=$(w))
 REENT_DRV_OBJS := $(REENTB)/drv_can.o $(REENTB)/drv_canbrief.o $(REENTB)/drv_vss.o
 $(REENTB)/drv_%.o: engines/reent/drv_%.c engines/reent/drivers.h $(REPO_HDRS) | dirs
 	@mkdir -p $(REENTB)
 	$(CC) -std=gnu99 -O1 -g -I$(REPO)/include -Iengines/reent -w -c $< -o $@
 REENT_SIM_SRCS := sim/task.cc sim/driver.cc sim/symtab.cc sim/cov.cc engines/reent/reent.cc
 REENT_SIM_OBJS := $(patsubst %.cc,$(REENTB)/sim/%.o,$(REENT_SIM_SRCS))
-$(REENTB)/sim/%.o: %.cc $(wildcard sim/*.h spec/*.h bindings/*.h engines/reent/*.h) Makefile | dirs
+$(REENTB)/sim/%.o: %.cc $(wildcard sim/*.h spec/*.h bindings/*.h engines/reent/*.h engines/reent/*.inc engines/reent/*.txt) Makefile | dirs
 	@mkdir -p $(dir $@)
 	$(CXX) $(SIM_CXXFLAGS) -c $< -o $@
 $(REENTB)/marker_begin.o: sim/marker_begin.c | dirs
@@ -123,7 +128,7 @@ $(REENTB)/marker_end.o: sim/marker_end.c | dirs
 	@mkdir -p $(REENTB)
 	$(CC) -O1 -fno-common -c $< -o $@
 $(B)/reent_sim: $(REENTB)/marker_begin.o $(REENT_LIB_OBJS) $(REENTB)/marker_end.o $(REENT_BIND_OBJS) $(REENT_DRV_OBJS) $(REENT_SIM_OBJS)
-	$(CXX) -no-pie -Wl,--wrap=memcpy -Wl,--wrap=memset -Wl,--wrap=memmove $(foreach w,strtok rand srand localtime gmtime ctime asctime strerror setlocale,-Wl,--wrap=$(w)) -o $@ $(REENTB)/marker_begin.o $(REENT_LIB_OBJS) $(REENTB)/marker_end.o $(REENT_BIND_OBJS) $(REENT_DRV_OBJS) $(REENT_SIM_OBJS) -lm
+	$(CXX) -no-pie -Wl,--wrap=memcpy -Wl,--wrap=memset -Wl,--wrap=memmove $(REENT_WRAPFLAGS) -o $@ $(REENTB)/marker_begin.o $(REENT_LIB_OBJS) $(REENTB)/marker_end.o $(REENT_BIND_OBJS) $(REENT_DRV_OBJS) $(REENT_SIM_OBJS) -lm
 reent: $(B)/reent_sim
 
 # ---------------------------------------------------------------- second build of the library: the repository's default toolchain (gcc)
@@ -133,9 +138,9 @@ GCC := gcc
 GLIBB := $(B)/glib
 GCC_REPO_CFLAGS := -std=gnu99 -O2 -g -fno-omit-frame-pointer -fno-common -U_FORTIFY_SOURCE -D_FORTIFY_SOURCE=0 -I$(REPO)/include -w
 GCC_LIB_OBJS := $(patsubst $(REPO)/src/%.c,$(GLIBB)/lib/%.o,$(LIB_SRCS))
-$(GLIBB)/lib/%.o: $(REPO)/src/%.c $(REPO_HDRS) Makefile | dirs
+$(GLIBB)/lib/%.o: $(REPO)/src/%.c $(REPO_HDRS) Makefile $(B)/repo_config.mk | dirs
 	@mkdir -p $(dir $@)
-	$(GCC) $(GCC_REPO_CFLAGS) -fsanitize-coverage=trace-pc -c $< -o $@
+	$(GCC) $(GCC_REPO_CFLAGS) $(REPO_LIB_DEFS) -fsanitize-coverage=trace-pc -c $< -o $@
 GCC_BIND_OBJS := $(patsubst $(GEN)/%.c,$(GLIBB)/%.o,$(BIND_SRCS))
 $(GLIBB)/bind_%.o: $(GEN)/bind_%.c bindings/bind.h $(REPO_HDRS) | dirs
 	@mkdir -p $(GLIBB)
@@ -145,18 +150,18 @@ $(GLIBB)/drv_%.o: engines/reent/drv_%.c engines/reent/drivers.h $(REPO_HDRS) | d
 	@mkdir -p $(GLIBB)
 	$(GCC) $(GCC_REPO_CFLAGS) -Iengines/reent -c $< -o $@
 REENTG_SIM_OBJS := $(patsubst %.cc,$(GLIBB)/reent/%.o,$(REENT_SIM_SRCS))
-$(GLIBB)/reent/%.o: %.cc $(wildcard sim/*.h spec/*.h bindings/*.h engines/reent/*.h) Makefile | dirs
+$(GLIBB)/reent/%.o: %.cc $(wildcard sim/*.h spec/*.h bindings/*.h engines/reent/*.h engines/reent/*.inc engines/reent/*.txt) Makefile | dirs
 	@mkdir -p $(dir $@)
 	$(CXX) $(SIM_CXXFLAGS) -DREENT_VARIANT_GCC=1 -c $< -o $@
 $(B)/reentg_sim: $(REENTB)/marker_begin.o $(GCC_LIB_OBJS) $(REENTB)/marker_end.o $(GCC_BIND_OBJS) $(GCC_DRV_OBJS) $(REENTG_SIM_OBJS)
-	$(CXX) -no-pie -Wl,--wrap=memcpy -Wl,--wrap=memset -Wl,--wrap=memmove $(foreach w,strtok rand srand localtime gmtime ctime asctime strerror setlocale,-Wl,--wrap=$(w)) -o $@ $(REENTB)/marker_begin.o $(GCC_LIB_OBJS) $(REENTB)/marker_end.o $(GCC_BIND_OBJS) $(GCC_DRV_OBJS) $(REENTG_SIM_OBJS) -lm
+	$(CXX) -no-pie -Wl,--wrap=memcpy -Wl,--wrap=memset -Wl,--wrap=memmove $(REENT_WRAPFLAGS) -o $@ $(REENTB)/marker_begin.o $(GCC_LIB_OBJS) $(REENTB)/marker_end.o $(GCC_BIND_OBJS) $(GCC_DRV_OBJS) $(REENTG_SIM_OBJS) -lm
 reent: $(B)/reentg_sim
 RECG_SIM_OBJS := $(patsubst %.cc,$(GLIBB)/rec/%.o,$(REC_SIM_SRCS))
 $(GLIBB)/rec/%.o: %.cc $(wildcard sim/*.h spec/*.h bindings/*.h) Makefile | dirs
 	@mkdir -p $(dir $@)
 	$(CXX) $(SIM_CXXFLAGS) -fsanitize=address -DREC_VARIANT_GCC=1 -c $< -o $@
-$(B)/recg_sim: $(NETB)/marker_begin.o $(GCC_LIB_OBJS) $(NETB)/marker_end.o $(GCC_BIND_OBJS) $(RECG_SIM_OBJS)
-	$(CXX) -no-pie -fsanitize=address -o $@ $(NETB)/marker_begin.o $(GCC_LIB_OBJS) $(NETB)/marker_end.o $(GCC_BIND_OBJS) $(RECG_SIM_OBJS) -lm
+$(B)/recg_sim: $(NETB)/marker_begin.o $(GCC_LIB_OBJS) $(NETB)/marker_end.o $(GCC_BIND_OBJS) $(GLIBB)/drv_can.o $(GLIBB)/drv_canbrief.o $(RECG_SIM_OBJS)
+	$(CXX) -no-pie -fsanitize=address -o $@ $(NETB)/marker_begin.o $(GCC_LIB_OBJS) $(NETB)/marker_end.o $(GCC_BIND_OBJS) $(GLIBB)/drv_can.o $(GLIBB)/drv_canbrief.o $(RECG_SIM_OBJS) -lm
 rec: $(B)/recg_sim
 
 dirs:
